@@ -507,7 +507,7 @@ class Interp:
         if tname in ('num_traits::NumCast::from', 'num_traits::FromPrimitive::from_f64', 'num_traits::FromPrimitive::from_usize',
                      'num_traits::FromPrimitive::from_u32', 'num_traits::FromPrimitive::from_i32') and len(args) == 1 and isinstance(deref_all(args[0]), Num):
             return SOME(deref_all(args[0]))
-        if tname in ('std::clone::Clone::clone', 'std::borrow::ToOwned::to_owned') and not cal.get('resolved', '').startswith('<interp') and not (cal.get('resolved') or '').startswith('interp'):
+        if tname in ('std::clone::Clone::clone', 'std::borrow::ToOwned::to_owned') and not ((cal.get('resolved') or '') in self.lib.bodies):
             a = deref_all(args[0])
             if isinstance(a, (Num, B, Unit)):
                 return a
